@@ -374,12 +374,6 @@ func leanStrs(xs []string) string {
 	return leanList(ys)
 }
 
-func leanBool(b bool) string {
-	if b {
-		return "true"
-	}
-	return "false"
-}
 
 func goModCache() string {
 	if v := os.Getenv("GOMODCACHE"); v != "" {
